@@ -31,6 +31,8 @@ func handleInProcess(body []byte) HTTPResp {
 	c, _ := gin.CreateTestContext(w)
 	c.Request = httptest.NewRequest("POST", "/api/decide", bytes.NewReader(body))
 	c.Request.Header.Set("Content-Type", "application/json")
+	id := sutEnter()
+	defer sutLeave(id)
 	decideHandler(c)
 	return HTTPResp{Code: w.Code, Body: w.Body.String()}
 }
